@@ -146,7 +146,8 @@ CLAIMED['C09'] = ('model_checking',
     TECH)
 CLAIMED['C07'] = ('model_checking',
     'Digest.tla: TLC generates EVERY document of a bounded NF-DOC grammar (words, \\par, sections of three levels, quote and itemize '
-    'environments, \\item, groups, commands with a text argument; up to 6 items quick / 7 thorough, nesting <= 3 / 4) as the stream of '
+    'environments, \\item, groups, commands with a text argument, font declarations, a section-level command without content (\\printindex); '
+    'up to 6 items quick / 7 thorough, nesting <= 3 / 4) as the stream of '
     'levelled, depth-stamped items the digest stage sees, runs the digest protocol (one rule per node class: TeX.parse, SectionUtils.digest, '
     'Environment.digest, bgroup.digest, digestUntil(item), with push-back) and checks DigestBuildsIntended (the tree equals the author\'s '
     'containment recorded by the generator), OnceInOrder, SectionsNestByLevel, NeverStuck.  The generated documents (quick: 25000, all with '
@@ -218,7 +219,8 @@ CLAIMED['C14'] = ('model_checking',
     'numbered equation of a unit; up to 1 reference exhaustively, up to 3 over 5 units by simulation), checks LinksLand (the file of the '
     'target url is produced and a fragment target is written in it), NavIsAChain and NamesDistinct on the machine layer (Renderable.url, '
     'SectionUtils.links) and prints the predicted href and shown number of each reference and prev/next/up of each file.  Each behaviour is '
-    'rendered by the real pipeline and the href and text of every reference, <link rel=prev|next|up> of every file, the footnote-mark -> '
+    'rendered by the real pipeline and the href and text of every reference, <link rel=prev|next|up> of every file, the table of contents '
+    'printed on every page (Toc(depth, toc-non-files) of the specification, incl. the proxy cut at toc-depth), the footnote-mark -> '
     'footnote pairing, and the home file of index links and citations are compared with the specification; on every output (plus variants: '
     'index + bibliography, toc-depth 0/1, toc-non-files, base-url, minimal theme, XHTML, theme extras copied) a link-closure pass checks that '
     'every non-external href/src names a produced file and an existing id, ids are unique per file and all pages are reachable from the '
@@ -246,15 +248,17 @@ CLAIMED['C12'] = ('model_checking',
 CLAIMED['C17'] = ('model_checking',
     'Isolation.tla: interpreter-wide state (parameter enable level, math stack depth, list depth, the \\( \\) switch, values held by the '
     'parameter classes, level of the shared index classes) and documents = class x sequence of state-touching features (register assignment '
-    'and use, an argument of type any, $..$, \\(..\\), a list, \\printindex) x ending (normal, inside $, inside a list, exception while an '
+    'and use of built-in and package-defined registers, an argument of type any, $..$, \\(..\\), a list, \\input inside a list / inside math, a '
+    'numbered section, \\printindex) x ending (normal, inside $, inside a list, exception while an '
     'argument is read, exception elsewhere); every action is shaped like the code path it stands for and four constants select as-built or '
     'repaired code (AnyEnables, ParseRestores, ClassPerDoc, RegsPerDoc; as-built reproduces F11-F15 as TLC counterexamples).  TLC checks '
-    'CleanAfterDocument, ResultIndependent and AssignmentsRun over every history of 2 documents x <= 2 (thorough 3) features (829k states).  '
+    'CleanAfterDocument, ResultIndependent and AssignmentsRun over every history of 2 documents x <= 2 (thorough 3) features (4.5M states).  '
     'spec->code: every history of two one-feature documents and every two-feature document is run by the real engine in one freshly forked '
     'interpreter: observations of the last document, the interpreter-wide state read from the real classes, and canonical toXML() against '
     'the same document alone in a fresh interpreter.  code->spec: seeded random histories (<= 4 documents x <= 4 features) validated by TLC '
     'against IsolationTrace.tla (verdict names document and field).  A generic detector diffs ALL class attributes of all classes in plasTeX '
-    'modules before/after every document.',
+    'modules before/after every document; for a sample of histories every document is also rendered and the files of the last compared '
+    'with a solo run.',
     'DESIGN.md#c17',
     'Trusted: TLC, Isolation.tla, the concretiser and DOM observers, fork() giving a pristine interpreter.  Generated identifiers are '
     'renumbered (the property allows their spelling to differ); @arguments/@locals/@hasgenid class caches are not compared.',
